@@ -728,8 +728,12 @@ impl JoinPlanner {
 
             for (i, var) in current_schema.iter().enumerate() {
                 if let Some(j) = next_schema.iter().position(|v| v == var) {
-                    left_keys.push(i);
-                    right_keys.push(j);
+                    // A variable repeated on the left (e.g. e(X, X)) must not
+                    // produce the same right key column twice.
+                    if !right_keys.contains(&j) {
+                        left_keys.push(i);
+                        right_keys.push(j);
+                    }
                 }
             }
 
